@@ -308,12 +308,14 @@ impl Harness {
     /// two send futures in flight at once and polls both whenever it runs (`join!`).
     fn class(&self) -> &'static str {
         match (self.spurious, self.cancel, self.join2) {
-            (true, _, false) => "spurious-poll",
-            (true, _, true) => "spurious-poll+join-task",
-            (false, true, false) => "cancelled-send",
-            (false, true, true) => "cancelled-send+join-task",
-            (false, false, true) => "woken-only+join-task",
             (false, false, false) => "woken-only",
+            (false, false, true) => "woken-only+join-task",
+            (false, true, false) => "woken-only+cancelled-send",
+            (false, true, true) => "woken-only+cancelled-send+join-task",
+            (true, false, false) => "spurious-poll",
+            (true, false, true) => "spurious-poll+join-task",
+            (true, true, false) => "spurious-poll+cancelled-send",
+            (true, true, true) => "spurious-poll+cancelled-send+join-task",
         }
     }
     fn flag(&mut self, sig: &str, what: String) {
@@ -571,6 +573,25 @@ impl Harness {
         }
     }
 
+    /// `Sender::is_closed` must agree with what the receiver did.
+    fn judge_is_closed(&mut self) {
+        let want = self.model.rx != RxState::Alive;
+        for i in 0..self.k {
+            let t = &self.tasks[i];
+            let got = match (&t.tx_rc, &t.tx_own) {
+                (Some(s), _) => s.is_closed(),
+                (_, Some(s)) => s.is_closed(),
+                _ => continue,
+            };
+            self.evals += 1;
+            if got != want {
+                let what = format!("sender task {i}: is_closed() = {got} while the receiver is {:?}", self.model.rx);
+                self.flag("C16|is_closed|disagrees-with-receiver-state", what);
+                return;
+            }
+        }
+    }
+
     // ---- schedule actions ----
 
     fn act(&mut self, a: Act) {
@@ -627,6 +648,9 @@ impl Harness {
                 self.model.queue.clear();
                 self.wakers[self.k].parked.store(false, Ordering::Relaxed);
             }
+        }
+        if self.viol.is_empty() {
+            self.judge_is_closed();
         }
     }
 
@@ -685,6 +709,9 @@ impl Harness {
             } else {
                 done.push(format!("S{id}"));
                 self.poll_sender(id);
+            }
+            if self.viol.is_empty() {
+                self.judge_is_closed();
             }
             if !self.viol.is_empty() {
                 break;
@@ -1016,6 +1043,23 @@ fn probe_localpool() {
     use futures::executor::LocalPool;
     use futures::task::LocalSpawnExt;
 
+    /// Let every other runnable task have `n` turns first.
+    async fn turns(n: usize) {
+        for _ in 0..n {
+            let mut yielded = false;
+            std::future::poll_fn(|cx| {
+                if yielded {
+                    Poll::Ready(())
+                } else {
+                    yielded = true;
+                    cx.waker().wake_by_ref();
+                    Poll::Pending
+                }
+            })
+            .await;
+        }
+    }
+
     fn run(name: &str, build: impl FnOnce(&futures::executor::LocalSpawner, Rc<RefCell<Vec<String>>>)) {
         let mut pool = LocalPool::new();
         let log = Rc::new(RefCell::new(vec![]));
@@ -1037,7 +1081,9 @@ fn probe_localpool() {
         .unwrap();
         let l = log.clone();
         sp.spawn_local(async move {
+            turns(3).await;
             tx.send(1).await.unwrap();
+            turns(3).await;
             futures::SinkExt::close(&mut tx).await.unwrap();
             l.borrow_mut().push("sender closed".into());
         })
@@ -1086,6 +1132,7 @@ fn probe_localpool() {
         .unwrap();
         let l = log.clone();
         sp.spawn_local(async move {
+            turns(2).await;
             let send = Box::pin(tb.send(20));
             match futures::future::select(send, cancel_rx).await {
                 futures::future::Either::Left(_) => l.borrow_mut().push("second sender sent 20".into()),
@@ -1095,12 +1142,14 @@ fn probe_localpool() {
         .unwrap();
         let l = log.clone();
         sp.spawn_local(async move {
+            turns(5).await;
             cancel_tx.send(()).unwrap();
             l.borrow_mut().push("canceller fired".into());
         })
         .unwrap();
         let l = log.clone();
         sp.spawn_local(async move {
+            turns(10).await;
             let mut got = vec![];
             while let Some(x) = rx.recv().await {
                 got.push(x);
@@ -1159,24 +1208,26 @@ fn main() {
     let depth: [(usize, usize); 3] = match args.tier {
         Tier::Quick => [(10, 9), (10, 7), (9, 6)],
         Tier::Thorough => [(12, 10), (12, 9), (10, 8)],
-        Tier::Miri => [(5, 3), (4, 3), (0, 0)],
+        Tier::Miri => [(4, 3), (3, 3), (0, 0)],
     };
     let mut table = serde_json_map();
     let mut ci = 0usize;
     for (kidx, sets) in [&sets1, &sets2, &sets3].into_iter().enumerate() {
         let (dw, da) = depth[kidx];
-        for set in sets {
+        for (si, set) in sets.iter().enumerate() {
             for capn in [1usize, 2] {
-                ci += 1;
-                if !args.in_shard(ci) || (dw == 0 && da == 0) {
+                // under Miri (~0.2 s per executed schedule): capacity 1 and half of the task sets that park
+                if (dw == 0 && da == 0) || (args.tier == Tier::Miri && (capn == 2 || set[0].1 < 2 || (set.len() == 2 && si % 2 == 1))) {
                     continue;
                 }
-                if args.tier == Tier::Miri && capn == 2 {
+                ci += 1;
+                if !args.in_shard(ci) {
                     continue;
                 }
                 let c = cfg(Some(capn), set);
                 let name: Vec<String> = set.iter().map(|(m, n)| format!("{}{n}", m.name())).collect();
-                let n1 = explore(&mut rep, &mut fnd, &c, false, false, dw, "enum-woken-only");
+                // (under Miri the woken-only schedules are only visited as part of the all-actions tree)
+                let n1 = if args.tier == Tier::Miri { 0 } else { explore(&mut rep, &mut fnd, &c, false, false, dw, "enum-woken-only") };
                 let n2 = explore(&mut rep, &mut fnd, &c, true, true, da, "enum-all-actions");
                 rep.count_n("nodes_woken_only_enumeration", n1);
                 rep.count_n("nodes_all_actions_enumeration", n2);
@@ -1191,14 +1242,14 @@ fn main() {
             continue;
         }
         let c = cfg(None, set);
-        let d = args.budget(7, 9, 3);
+        let d = args.budget(7, 9, 2);
         let n = explore(&mut rep, &mut fnd, &c, true, true, if set.len() == 3 { d - 2 } else { d - 1 }, "enum-unbounded");
         rep.count_n("nodes_unbounded_enumeration", n);
     }
     rep.extra("enumeration", Value::Object(table));
 
     // random long schedules
-    for i in 0..args.budget(150_000, 2_000_000, 12) {
+    for i in 0..args.budget(150_000, 2_000_000, 8) {
         ci += 1;
         let mut r = rng.fork(i as u64);
         if args.in_shard(ci) {
@@ -1209,7 +1260,7 @@ fn main() {
     fnd.report(&mut rep);
     let miri = args.tier == Tier::Miri;
     rep.require(miri || rep.counter("runs|woken-only") > 10_000, "fewer than 10000 woken-only executions");
-    rep.require(miri || rep.counter("runs|cancelled-send") > 10_000, "fewer than 10000 executions with a cancelled send");
+    rep.require(miri || rep.counter("runs|woken-only+cancelled-send") > 10_000, "fewer than 10000 executions with a cancelled send");
     rep.require(miri || rep.counter("runs|spurious-poll") > 10_000, "fewer than 10000 executions with a spurious poll");
     rep.require(miri || rep.counter("runs|woken-only+join-task") > 1_000, "fewer than 1000 executions with a join-style task");
     rep.require(miri || rep.counter("runs_with_parked_sender") > 10_000, "fewer than 10000 executions in which a sender had to wait for capacity");
